@@ -572,6 +572,6 @@ def run(tier, seed):
 MANIFEST = {
     "engine": "E",
     "technique": "exhaustive configuration grid x lease multisets around the policy threshold, each evaluated by one full cycle of the real LeaseCheckingCrawler on a real StorageServer, against the documented expiry predicate",
-    "text": "Every point of {enabled} x {age, age+override 1d/60d, 3 cutoff dates} x {share-type filters} x {immutable, mutable} x every multiset of <= 3 (thorough 5) leases with renewal times {now-400d, T*-1s, T*, T*+1s, now-1d} is built through the server API with a controlled clock and crawled once; a share must be gone iff expiry is enabled, its type is enabled and every lease is expired by docs/garbage-collection.rst. Complete for the grid. Part B: three crawl cycles (now, +35 d, +80 d) with renewals of every non-empty subset of a share's leases at +10 d, for every ordered tuple of 2 (thorough 2..3) leases over {far, below, above, recent}, all shares of a policy on one real server; after each cycle a share is gone iff all its leases are expired then, and unexpired leases are still recorded.",
+    "text": "Every point of {enabled} x {age, age+override 1d/60d, 3 cutoff dates} x {share-type filters} x {immutable, mutable} x every multiset of <= 3 (thorough 5) leases with renewal times {now-400d, T*-1s, T*, T*+1s, now-1d} is built through the server API with a controlled clock and crawled once; a share must be gone iff expiry is enabled, its type is enabled and every lease is expired by docs/garbage-collection.rst. Complete for the grid. Part B: three crawl cycles (now, +35 d, +80 d) with renewals of every non-empty subset of a share's leases at +10 d, for every ordered tuple of 2 (thorough 2..3) leases over {far, below, above, recent}, all shares of a policy on one real server; after each cycle a share is gone iff all its leases are expired then, and unexpired leases are still recorded. Part C: tahoe.cfg expire.* options go through the real _Client.get_anonymous_storage_server and the lease checker must be configured with exactly the enabled share types and mode.",
     "note": "Shares of one configuration share a server and a cycle; failing cases are re-run alone. Zero-lease shares are counted, not judged (the statement is silent). Trusted: the 10-line reference predicate.",
 }
